@@ -36,7 +36,7 @@ import (
 	"time"
 )
 
-var c13bImporters = []string{"revolut2"}
+var c13bImporters = []string{"revolut2", "revolut"}
 
 var c13bUse = map[string]string{"revolut2": "revolut2", "revolut": "revolut", "wise": "com.wise",
 	"swissquote": "ch.swissquote", "interactivebrokers": "us.interactivebrokers"}
@@ -615,10 +615,174 @@ func c13bGenRevolut2(r *rng, mal string) c13bCase {
 	return c
 }
 
+// ---------------------------------------------------------------- revolut (older export)
+
+// amount as the export writes it: a leading blank, ' as thousands separator
+func c13bRevAmount(r *rng, a c13aAmount) string {
+	t := a.text()
+	if r.chance(70) {
+		t = " " + t
+	}
+	return t
+}
+
+func c13bGenRevolut(r *rng, mal string) c13bCase {
+	c := c13bCase{imp: "revolut", flags: map[string]string{
+		"acct": pick(r, []string{"Assets:Accounts:Revolut", "Assets:Revolut", "Assets:Bank:Revolut:EUR", "Assets:R"})}}
+	n := c13aRowCount(r)
+	if mal != "" && n == 0 {
+		n = 3
+	}
+	cur := pick(r, []string{"EUR", "EUR", "CHF", "USD", "GBP"})
+	others := []string{}
+	for _, o := range []string{"EUR", "CHF", "USD", "GBP", "NZD"} {
+		if o != cur {
+			others = append(others, o)
+		}
+	}
+	quotesOK := r.chance(15)
+	c.quotes = quotesOK
+	ascending := r.chance(15) // oldest first is consistent only with one row per day
+	dts := c13aNewDates(r)
+	type row struct {
+		date   time.Time
+		fields []string
+		fact   c13bFact
+		bal    string
+	}
+	rows := make([]row, n)
+	balance := new(big.Rat)
+	if r.chance(70) {
+		balance = big.NewRat(int64(r.intn(500000)), 100)
+		c.opening = append(c.opening, c13bTerm{cur, c13bCanon(balance)})
+	}
+	for i := range rows {
+		t := dts.next()
+		if ascending {
+			dts.cur = dts.cur.AddDate(0, 0, 1)
+		}
+		amt := c13aGenAmount(r, true)
+		if r.chance(4) {
+			amt = c13aExotic(r)
+		}
+		credit := r.chance(30)
+		ref := c13aText(r, false, quotesOK)
+		rate, cat := pick(r, []string{" ", "", " "}), pick(r, []string{"General", "Groceries", "Transport", "Travel", "Restaurants", "", "Health & Beauty"})
+		exOut, exIn := "", ""
+		terms := []c13bTerm{{cur, amt.value(!credit)}}
+		if r.chance(15) {
+			o := pick(r, others)
+			oa := c13aGenAmount(r, true)
+			combi := o + pick(r, []string{" ", "  ", "\u00a0", "\t"}) + oa.text()
+			rate = fmt.Sprintf("FX-rate %s 1 = %s 1.%04d", pick(r, []string{"€", "$", cur}), o, r.intn(10000))
+			if credit {
+				ref = "Bought " + cur + " from " + o
+				exIn = combi
+				terms = append(terms, c13bTerm{o, oa.value(true)})
+			} else {
+				ref = "Sold " + cur + " to " + o
+				exOut = combi
+				terms = append(terms, c13bTerm{o, oa.value(false)})
+			}
+			if r.chance(20) {
+				ref = ref + pick(r, []string{" (fee incl.)", "  ", " x"})
+			}
+		} else if r.chance(5) {
+			ref = pick(r, []string{"Sold out", "Sold EUR to chf", "Bought eur from CHF", "SoldEUR to CHF", "Sold  EUR to CHF"})
+		}
+		balance.Add(balance, c13bRatOf(amt, !credit))
+		out, in := c13bRevAmount(r, amt), ""
+		if credit {
+			out, in = "", out
+		}
+		bal := c13bCanon(balance)
+		balText := balance.FloatString(2)
+		if r.chance(50) && len(balText) > 7 && balance.Sign() > 0 {
+			balText = balText[:len(balText)-6] + "'" + balText[len(balText)-6:]
+		}
+		if !strings.Contains(bal, ".") || len(bal)-strings.Index(bal, ".") <= 3 {
+			// two places are enough
+		} else {
+			balText = balance.FloatString(6)
+		}
+		rows[i] = row{date: t, fields: []string{t.Format("2 Jan 2006"), ref, out, in, exOut, exIn, " " + balText, rate, cat},
+			fact: c13bFact{c13aISO(t), terms}, bal: bal}
+	}
+	if !ascending {
+		for i, j := 0, len(rows)-1; i < j; i, j = i+1, j-1 {
+			rows[i], rows[j] = rows[j], rows[i]
+		}
+	}
+	bad := -1
+	if mal != "" && mal != "acct" {
+		bad = r.intn(n)
+	}
+	var b strings.Builder
+	hcur := cur
+	header := fmt.Sprintf("Completed Date;Reference;Paid Out (%s);Paid In (%s);Exchange Out;Exchange In; Balance (%s);Exchange Rate;Category\n", hcur, hcur, hcur)
+	if mal == "cur" {
+		header = pick(r, []string{"Completed Date;Reference;Paid Out;Paid In;Exchange Out;Exchange In; Balance;Exchange Rate;Category\n",
+			"Completed Date;Reference;Paid Out (€);Paid In (€);Exchange Out;Exchange In; Balance (€);Exchange Rate;Category\n",
+			"Completed Date;Reference;Paid Out ();Paid In ();Exchange Out;Exchange In; Balance ();Exchange Rate;Category\n"})
+	}
+	b.WriteString(header)
+	prev := ""
+	for i, row := range rows {
+		fields := row.fields
+		if i == bad {
+			switch mal {
+			case "date":
+				fields[0] = pick(r, []string{"31 Feb 2020", "0 Jan 2020", "29 Feb 2021", "32 Jan 2020", "31 Apr 2020", "15 Foo 2020"})
+			case "datefmt":
+				fields[0] = pick(r, []string{"2020-02-01", "Jan 2 2020", "", "2 January 2020x", "02.01.2020", "2 Jan 20"})
+			case "amount":
+				switch r.intn(4) {
+				case 0:
+					fields[2], fields[3] = "", ""
+				case 1:
+					fields[2], fields[3] = "1.00", "2.00"
+				case 2:
+					fields[6] = pick(r, c13aBadAmounts)
+				default:
+					if fields[2] != "" {
+						fields[2] = pick(r, c13aBadAmounts)
+					} else {
+						fields[3] = pick(r, c13aBadAmounts)
+					}
+				}
+			case "cols":
+				if r.chance(50) {
+					fields = fields[:8]
+				} else {
+					fields = append(fields, "extra")
+				}
+			}
+		}
+		for k, f := range fields {
+			if k > 0 {
+				b.WriteByte(';')
+			}
+			if k == 1 || k == 7 || k == 8 {
+				b.WriteString(c13aCsvField(r, f, ';', false))
+			} else {
+				b.WriteString(f)
+			}
+		}
+		b.WriteString(pick(r, []string{"\n", "\n", "\r\n"}))
+		c.facts = append(c.facts, row.fact)
+		if row.fact.date != prev {
+			c.asserts = append(c.asserts, c13bFact{row.fact.date, []c13bTerm{{cur, row.bal}}})
+			prev = row.fact.date
+		}
+	}
+	c.file = []byte(b.String())
+	return c
+}
+
 // ---------------------------------------------------------------- generator entry
 
 var c13bGenFuncs = map[string]func(r *rng, mal string) c13bCase{
-	"revolut2": c13bGenRevolut2,
+	"revolut2": c13bGenRevolut2, "revolut": c13bGenRevolut,
 }
 
 var c13bMalKinds = []string{"date", "datefmt", "amount", "cols", "cur", "acct"}
